@@ -5,7 +5,7 @@
 """
 import copy
 import numpy as np
-from pmv import common, gen, observe
+from pmv import common, gen, observe, corpus
 
 ID   = 'C11'
 RULE = ( 'all ground families with 1..2 sources and optionally a lumped load in the grounded base pulse; per case the '
@@ -26,16 +26,24 @@ CASE_TIMEOUT = 300
 
 def plan (tier, seed):
     n = 150 if tier == 'quick' else 3000
-    return [dict (i = i, seed = seed) for i in range (n)]
+    return [dict (i = i, seed = seed) for i in range (n)] \
+         + corpus.plan_cases (seed, tier, 1, 2, only = lambda s: s ['media'] is not None, skip = corpus.OUTSIDE_RULES)
 # end def plan
 
 def make (c):
     rng  = np.random.default_rng ([c ['seed'], 11, c ['i']])
-    spec = gen.fam_ground (rng, shift = bool (rng.random () < 0.6))
-    gen.add_sources (rng, spec, nmax = 2)
-    base = [fd for fd in spec.get ('feeds') or [] if abs (fd ['at'][2]) < 1e-12]
-    if base and rng.random () < 0.4:
-        spec ['loads'] = [dict (k = 'z', z = [float (10 ** rng.uniform (0.5, 2.5)), float (rng.uniform (-100, 100))], at = base [0]['at'])]
+    if 'corpus' in c:
+        # the repository's antennas over ground: geometry, sources and loads of the file, the ground replaced by the forms below
+        spec = corpus.make (c, 11)
+        rng  = corpus.rng_of (c, 11)
+        spec.pop ('boundary', None)
+        spec.pop ('radials', None)
+    else:
+        spec = gen.fam_ground (rng, shift = bool (rng.random () < 0.6))
+        gen.add_sources (rng, spec, nmax = 2)
+        base = [fd for fd in spec.get ('feeds') or [] if abs (fd ['at'][2]) < 1e-12]
+        if base and rng.random () < 0.4:
+            spec ['loads'] = [dict (k = 'z', z = [float (10 ** rng.uniform (0.5, 2.5)), float (rng.uniform (-100, 100))], at = base [0]['at'])]
     lam = gen.C_MHZ / spec ['f']
     spec ['g'] = dict \
         ( eps = float (rng.uniform (1, 80)), sig = float (10 ** rng.uniform (-4, 1))
